@@ -241,21 +241,28 @@ def run(ctx):
                     v = [0.0, 0.0, 0.0]
                     v[ax] = float(sg) * (1.0 if spelling == 'vec' else rng.choice([2.0, 0.25, 5.0]))
                     direction = v[:2] if spelling == 'vec2' else v
-                p, k = rng.choice(INSTANCES)
-                eps = rng.choice([Fraction(0), Fraction(0), Fraction(0), Fraction(1, 64), Fraction(float(1e-4))])
                 nel = a * b * max(c, 1)
-                mode = rng.random()
+                layers = (a, b, max(c, 1))[ax]
+                # keep the exact rationals of the Q model small: bits ~ bits0 * degree^(layers-1)
+                for attempt in range(40):
+                    p, k = rng.choice(INSTANCES) if attempt < 39 else (2, Fraction(1))
+                    eps = rng.choice([Fraction(0), Fraction(0), Fraction(0), Fraction(1, 64), Fraction(float(1e-4))]) if attempt < 39 else Fraction(0)
+                    mode = rng.random() if attempt < 39 else 0.0
+                    q = p - k
+                    deg = p if q == 1 else (2 * p if q == Fraction(1, 2) else 1)
+                    bits0 = 4 if mode < 0.6 else (1 if mode < 0.8 else (53 if layers <= 2 else 10))
+                    if eps != 0:
+                        bits0 = max(bits0, 64)
+                    if bits0 * deg ** max(layers - 1, 0) <= 3000:
+                        break
                 if mode < 0.6:
                     xs = [Fraction(rng.choice([0, 0, 16, 16] + list(range(17))), 16) for _ in range(nel)]
                 elif mode < 0.8:
                     xs = [Fraction(rng.choice([0, 1])) for _ in range(nel)]
+                elif layers <= 2:
+                    xs = [Fraction(rng.random()) for _ in range(nel)]
                 else:
-                    # full 53-bit floats only where the exact rationals stay small (degree^(layers-1) growth)
-                    layers = (a, b, max(c, 1))[ax]
-                    if layers <= 2:
-                        xs = [Fraction(rng.random()) for _ in range(nel)]
-                    else:
-                        xs = [Fraction(rng.randrange(0, 1025), 1024) for _ in range(nel)]
+                    xs = [Fraction(rng.randrange(0, 1025), 1024) for _ in range(nel)]
                 ns_given = nsamp if (dim == 3 or rng.random() < 0.5) else None
                 sweep_case(ctx, pym, add, (a, b, c), direction, ns_given, p, k, eps, xs, tag='sweep')
 
@@ -277,7 +284,13 @@ def run(ctx):
 
     # ---- (c) set_parameters (and one smooth-min/max step with the default parameters) through Interval goals
     t_int = time.time()
-    ok_r = interval_goals(ctx, pym)
+    try:
+        ok_r = interval_goals(ctx, pym)
+    except Exception as e:  # noqa  never let this phase prevent the oracle from running
+        ok_r = False
+        ctx.obligation('interval:harness completed', 'interval', False, repr(e)[:1500])
+        ctx.violation('correspondence', 'OverhangFilter.set_parameters', 'R model == implementation (interval)',
+                      'harness', dict(error=repr(e)[:1500]), theorem='interval')
     ctx.extra['phase_seconds']['interval'] = round(time.time() - t_int, 1)
     broken = bool(failing) or bool(err) or not gen_ok or not ok_r
 
@@ -366,9 +379,16 @@ def interval_goals(ctx, pym):
         dom = pym.DomainDefinition(3, 3, 0 if dim == 2 else 2)
         nel = dom.nelx * dom.nely * max(dom.nelz, 1)
         x = np.array([rng.choice([0.0, 1.0, rng.random()]) for _ in range(nel)])
-        m = make_filter(pym, dom, '+y', x=x, nsampling=n, xi_0=xi0, p=p, eps=eps)
-        m.response()
-        y = np.asarray(m.sig_out[0].state)
+        try:
+            m = make_filter(pym, dom, '+y', x=x, nsampling=n, xi_0=xi0, p=p, eps=eps)
+            m.response()
+            y = np.asarray(m.sig_out[0].state)
+        except Exception as e:  # noqa  (the oracle below reports the concrete failing input)
+            ctx.obligation(f'interval:implementation runs (p={p}, xi_0={xi0}, n={n})', 'interval', False, repr(e)[:500])
+            ctx.violation('correspondence', 'OverhangFilter._response', 'R model == implementation (interval)',
+                          'default/random parameters', dict(p=p, xi_0=xi0, eps=eps, nsampling=n, error=repr(e)[:500]),
+                          theorem='interval')
+            return False
         P, XI, EPS = rlit(p), rlit(xi0), rlit(eps)
         Q = f'(q_of {P} {n} {XI})'
         S = f'(shift_of {P} dbl_tiny)'
@@ -484,7 +504,7 @@ def run_impl(pym, grid, x3, axis, sign, spelling, n, p, xi0, eps):
 
 def oracle(ctx, pym, more=False):
     rng = np.random.default_rng(ctx.seed)
-    ncase = 60 if not more else 400
+    ncase = 250 if not more else 1500
     nval = dict(premise=0, perm=0)
     for t in range(ncase):
         dim = 2 if t % 2 == 0 else 3
@@ -571,24 +591,28 @@ def oracle(ctx, pym, more=False):
                                 f'dim{dim}', expected=bound, got=float(y3[idx]), element=list(idx))
         # 6. equivariance: mirror along a random axis / swap two axes
         for rep in range(2):
-            if rep == 0:
-                mx = int(rng.integers(0, dim))
-                xm = np.flip(x3, axis=mx)
-                ym, _ = run_impl(pym, grid, xm, axis, -sign if mx == axis else sign, 'vec', n, p, xi0, eps)
-                back = np.flip(ym, axis=mx)
-                what = f'mirror axis {mx}'
-            else:
-                a1, a2 = (0, 1) if dim == 2 else tuple(sorted(rng.choice(3, size=2, replace=False).tolist()))
-                perm = [0, 1, 2]
-                perm[a1], perm[a2] = a2, a1
-                xs = x3.transpose(perm)
-                g2 = list(shape)
-                g2[a1], g2[a2] = g2[a2], g2[a1]
-                grid2 = (g2[0], g2[1], 0 if dim == 2 else g2[2])
-                ax2 = perm[axis]
-                ys, _ = run_impl(pym, grid2, xs, ax2, sign, 'str', n, p, xi0, eps)
-                back = ys.transpose(perm)
-                what = f'swap axes {a1},{a2}'
+            try:
+                if rep == 0:
+                    mx = int(rng.integers(0, dim))
+                    xm = np.flip(x3, axis=mx)
+                    what = f'mirror axis {mx}'
+                    ym, _ = run_impl(pym, grid, xm, axis, -sign if mx == axis else sign, 'vec', n, p, xi0, eps)
+                    back = np.flip(ym, axis=mx)
+                else:
+                    a1, a2 = (0, 1) if dim == 2 else tuple(sorted(rng.choice(3, size=2, replace=False).tolist()))
+                    what = f'swap axes {a1},{a2}'
+                    perm = [0, 1, 2]
+                    perm[a1], perm[a2] = a2, a1
+                    xs = x3.transpose(perm)
+                    g2 = list(shape)
+                    g2[a1], g2[a2] = g2[a2], g2[a1]
+                    grid2 = (g2[0], g2[1], 0 if dim == 2 else g2[2])
+                    ax2 = perm[axis]
+                    ys, _ = run_impl(pym, grid2, xs, ax2, sign, 'str', n, p, xi0, eps)
+                    back = ys.transpose(perm)
+            except Exception as e:  # noqa
+                bad('response computes', f'dim{dim}', got=repr(e)[:300], symmetry=what)
+                continue
             ctx.search_evaluations += 1
             nval['perm'] += 1
             if back.shape != y3.shape or np.abs(back - y3).max() > tolv:
